@@ -238,6 +238,12 @@ class RefServer:
             elif c.args[0] == b"cachedump":
                 lines = [b"ITEM %s [%d b; 0 s]" % (k, len(it.value)) for k, it in sorted(self.store.items())
                          if b" " not in k][:5]
+            elif c.args[0] == b"detail":
+                if c.args[1:] == [b"dump"]:
+                    return b"PREFIX user get 3 hit 2 set 1 del 0\r\nPREFIX item get 1 hit 0 set 1 del 1\r\nEND\r\n", False
+                return b"OK\r\n", False
+            elif c.args[0] == b"reset":
+                return b"RESET\r\n", False
             elif c.args[0] in (b"items", b"slabs", b"sizes", b"conns"):
                 lines = [b"STAT items:1:number %d" % len(self.store), b"STAT items:1:age 3"]
             else:
@@ -274,11 +280,30 @@ class Session:
     def _key_ok(self, k):
         return 1 <= len(k) <= 250 and not any(b in ILLEGAL_KEY_BYTES for b in k)
 
+    def _consume(self, n):
+        """n bytes leave the buffer: keep the per-byte origin bookkeeping in step"""
+        while n > 0 and self.segs:
+            if self.segs[0][0] <= n:
+                n -= self.segs[0][0]
+                self.segs.pop(0)
+            else:
+                self.segs[0][0] -= n
+                n = 0
+
     def feed(self, data: bytes, tag=None):
-        """-> list of (reply_bytes, tag, cmd) in order; sets self.closed on quit/shutdown."""
+        """-> list of (reply_bytes, tag, cmd) in order; sets self.closed on quit/shutdown.
+        A reply is tagged with the call that sent the FIRST byte of the command it answers: a command line completed by
+        a later call (after an aborted partial send) still answers the earlier call's request."""
+        if not hasattr(self, "segs"):
+            self.segs = []
+        if data:
+            self.segs.append([len(data), tag])
         self.buf += data
         out = []
+        feed_tag = tag
         while not self.closed:
+            tag = self.segs[0][1] if self.segs else feed_tag
+            before = len(self.buf)
             eol = self.buf.find(b"\r\n")
             if eol < 0:
                 break
@@ -288,6 +313,7 @@ class Session:
             if err is not None:
                 self._mal(line, err)
                 self.buf = rest
+                self._consume(before - len(self.buf))
                 out.append((b"ERROR\r\n", tag, None))
                 continue
             if need is not None:
@@ -301,6 +327,7 @@ class Session:
                     # resynchronise like memcached: swallow up to the next line end
                     nxt = rest.find(b"\r\n", need)
                     self.buf = rest[nxt + 2:] if nxt >= 0 else b""
+                    self._consume(before - len(self.buf))
                     if not cmd.noreply:
                         out.append((b"CLIENT_ERROR bad data chunk\r\n", tag, None))
                     continue
@@ -310,6 +337,7 @@ class Session:
             else:
                 cmd.raw = line + b"\r\n"
                 self.buf = rest
+            self._consume(before - len(self.buf))
             cmd.tag = tag
             self.cmds.append(cmd)
             self.server.cmdlog.append(cmd)
